@@ -473,7 +473,7 @@ def run_plain(case):
 # ---- generation -------------------------------------------------------------------------------------
 BASE_NAMES = ['c$a', 'c$b', 'c$x', 'c$y', 'c$z', 'k$g', 'time', 'c$w', 'B$a', 'c$aa', 'd$v', 'Z', 'c$a_b']
 EXTRA_NAMES = ['n$p', 'n$q', 'c$a', 'c$x', 'r', 'c__a']
-CMETAS = ['id_a', 'id_b', 'c__a', 'c__b', 'c__a_', 'time', 'mid']
+CMETAS = ['id_a', 'id_b', 'c__a', 'c__b', 'c__a_', 'time', 'mid', 'τ_m', 'débit.2']     # legal XML ids, two of them not ASCII
 LOCAL_IDS = CMETAS + ['c__x', 'c__y']
 
 
